@@ -200,6 +200,16 @@ def run(ctx):
         ctx.check(t1 is not None and t2 is not None and t1 == t2,
                   "R5", "the second table gets the same energy-dependent table (module data not consumed or reordered)",
                   f"first {_s(t1, 120)} second {_s(t2, 120)}", fsite(ctx, "nsf.energy_dependent_init"))
+        # reload=True rebuilds every record of that table - the energy-dependent ones included
+        rr2 = raises(lambda: I.call(I.global_name("nsf", "init"), [T2], {"reload": True}))
+        ctx.check(rr2 is None, "R3", "nsf.init(table, reload=True) on a loaded table", f"raises {rr2}", site)
+        if rr2 is None:
+            n3 = I.heap[I.heap[I.getattr(T2, "Lu").id]["_isotopes"][176].id]["neutron"]
+            t3 = lookup_nodes(I, n3)
+            ctx.check(t3 is not None and t3 == t1, "R5", "after reload=True the energy-dependent records have their tables again",
+                      f"before {_s(t1, 100)} after the reload {_s(t3, 100)}", fsite(ctx, "nsf.energy_dependent_init"))
+            ctx.check(I.heap[n3.id].get("b_c") == I.heap[n1.id].get("b_c"), "R3", "after reload=True the records hold the tabulated values again",
+                      "b_c differs", site)
     _, n176 = rec("Lu", 176)
     from .nworld import lookup_nodes
     tab = lookup_nodes(I, n176)
